@@ -1644,12 +1644,28 @@ class AnsiString:
             str_splits = self._s.rsplit(sep, maxsplit)
         else:
             str_splits = self._s.split(sep, maxsplit)
+        # Determine where each substring starts: they are separated by exactly sep, or by whitespace when sep is None
         split_idx_len = []
-        idx = 0
-        for s in str_splits:
-            idx = self._s.find(s, idx)
-            split_idx_len.append((idx, len(s)))
-            idx += len(s)
+        if r:
+            idx = len(self._s)
+            for s in reversed(str_splits):
+                if sep is None:
+                    while idx > 0 and self._s[idx-1].isspace():
+                        idx -= 1
+                idx -= len(s)
+                split_idx_len.insert(0, (idx, len(s)))
+                if sep is not None:
+                    idx -= len(sep)
+        else:
+            idx = 0
+            for s in str_splits:
+                if sep is None:
+                    while idx < len(self._s) and self._s[idx].isspace():
+                        idx += 1
+                split_idx_len.append((idx, len(s)))
+                idx += len(s)
+                if sep is not None:
+                    idx += len(sep)
 
         ansi_str_splits = []
         for idx, length in split_idx_len:
